@@ -42,3 +42,36 @@ pub fn reopen(n: usize, threads: usize) {
         }
     });
 }
+
+pub fn timing() {
+    use crate::pipeline::*;
+    use std::time::Instant;
+    let t = Instant::now();
+    let mut r = crate::rlnh::new_rln(20);
+    println!("RLN::new #1 {:?}", t.elapsed());
+    let t = Instant::now();
+    let r2 = crate::rlnh::new_rln(20);
+    println!("RLN::new #2 {:?}", t.elapsed());
+    drop(r2);
+    let reqs = draw(&req_strategy(100), 1, "timing", 3);
+    for req in reqs {
+        let t = Instant::now();
+        set_leaf_big(&mut r, req.index, &req.rate_commitment()).unwrap();
+        println!("set_leaf {:?}", t.elapsed());
+        let t = Instant::now();
+        let mut out = vec![];
+        r.generate_rln_proof(std::io::Cursor::new(req.encode()), &mut out).unwrap();
+        println!("generate_rln_proof {:?}", t.elapsed());
+        let t = Instant::now();
+        let v = call_verify(&r, &out);
+        println!("verify {:?} {:?}", t.elapsed(), v);
+        let t = Instant::now();
+        let wb = r.get_serialized_rln_witness(std::io::Cursor::new(req.encode())).unwrap();
+        println!("get_serialized_rln_witness {:?}", t.elapsed());
+        let t = Instant::now();
+        let (w, _) = rln::protocol::deserialize_witness(&wb).unwrap();
+        let inputs = rln::protocol::inputs_for_witness_calculation(&w).unwrap().into_iter().map(|(n, v)| (n.to_string(), v));
+        let wit = rln::circuit::calculate_rln_witness(inputs, crate::rlnh::graph_bytes());
+        println!("witness calc {:?} len {}", t.elapsed(), wit.len());
+    }
+}
